@@ -581,6 +581,14 @@ bool make_det_stream(const Json& c, uint64_t sub, int frame, DetStream& s) {
             s.x[p - nh + 1 + j].im += double(v.imag());
         }
         if (present == 1) s.p = p;
+        // other traffic around the preamble (a payload after it, the tail of an earlier burst before it) at its own level: white, so
+        // it cannot look like the preamble, but it may be (much) louder or weaker than it
+        if (c.has("pl_db")) {
+            const double ps = A * std::pow(10.0, c.getd("pl_db") / 20.0) * 0.7071067811865476;
+            const int where = c.geti("pl_pos", 0);
+            if (where == 0 || where == 2) for (int i = p + 1; i < S; ++i) { s.x[i].re += ps * r.gauss(); s.x[i].im += ps * r.gauss(); }
+            if (where == 1 || where == 2) for (int i = 0; i <= p - nh; ++i) { s.x[i].re += ps * r.gauss(); s.x[i].im += ps * r.gauss(); }
+        }
     }
     std::vector<ld> st;
     ref_statistic(s, st);
@@ -686,6 +694,7 @@ void det_check_impl(const Json& c, Out& o) {
     o.label(thr < 0.5 ? "thr:0.3-0.5" : thr < 0.7 ? "thr:0.5-0.7" : "thr:0.7-0.9");
     o.label(vary ? "call:varying-frames-per-call" : chunk == 1 ? "call:1-frame" : "call:multi-frame");
     if (refused) o.label("refused-blocks-between-calls");
+    if (c.has("pl_db")) o.label(c.getd("pl_db") > 3 ? "other traffic: louder than the preamble" : c.getd("pl_db") < -3 ? "other traffic: weaker than the preamble" : "other traffic: about as loud");
     if (present == 2) o.label("absent:other-sequence");
     if (present == 0) o.label("absent:noise-only");
     const int tb = int(thr * 10);
@@ -720,7 +729,7 @@ static void doff_gen(Ctx& ctx) {
     }
 }
 
-static Json det_random_case(int present) {
+static Json det_random_case0(int present) {
     const int nc = pick(0, 2);
     const int nh = nc == 0 ? pick_log(16, 512) : nc == 1 ? pick(16, 512) : one_of<int>({16, 31, 32, 63, 64, 127, 128, 255, 256, 511, 512});
     const double lo = thr_floor(nh);
@@ -733,6 +742,12 @@ static Json det_random_case(int present) {
     const int off = oc == 0 ? 0 : oc == 1 ? frame_guess - 1 : oc == 2 ? pick(0, nh - 1) : pick(0, frame_guess - 1);
     return Json::object().set("nh", nh).set("type", pick(0, P_NTYPES - 1)).set("thr", thr).set("a_db", pick(0, 2) != 0 ? pickd(-35.0, 35.0) : flip() ? pickd(-120.0, -35.0) : pickd(35.0, 120.0)).set("snr_db", pickd(20.0, 100.0)).set("off", off)
       .set("lead", pick(0, 4)).set("tail", pick(0, 4)).set("chunk", pick(1, 3)).set("vary", flip() ? (long long)(1 + pick64(0, 1 << 30)) : 0LL).set("bad", pick(0, 3) == 0 ? (long long)(1 + pick64(0, 1 << 30)) : 0LL).set("present", present).set("seed", (long long)seed64());
+}
+
+static Json det_random_case(int present) {
+    Json c = det_random_case0(present);
+    if (present != 0 && pick(0, 2) == 0) c.set("pl_db", pickd(-30.0, 30.0)).set("pl_pos", pick(0, 2));
+    return c;
 }
 
 VK_SUB(drnd, "detector_random");
